@@ -6,6 +6,7 @@ import (
 	"fmt"
 	"os"
 	"strings"
+	"time"
 
 	"verif/internal/engine"
 	"verif/internal/sched"
@@ -62,7 +63,18 @@ func (c *check) runE3(e e3unit, ctx *engine.Ctx) {
 	first := true
 	ex := &sched.Explorer{Bound: e3Bound(c.tier), Bodies: bodies, MaxExecs: 4000}
 	ex.Filter = func(i, alt int) bool { return (i*7+alt)%e3Shards == e.shard }
+	// a shard explores until its execution cap or its time cap, whichever comes first: on a tree where the renders
+	// share much more state than the unchanged one (every access is a scheduling point) a single shard would
+	// otherwise run for hours and keep the other families from being reached
+	shardStart := time.Now()
+	shardCap := 90 * time.Second
+	if c.tier == "thorough" {
+		shardCap = 15 * time.Minute
+	}
 	ex.Check = func(x *sched.Execution) {
+		if time.Since(shardStart) > shardCap && ex.MaxExecs != 1 {
+			ex.MaxExecs = 1 // stops after this execution; reported as a capped shard
+		}
 		isRoot := first
 		first = false
 		if isRoot {
